@@ -54,6 +54,13 @@ def inCol (e : Error) (s t : Nat) : Error := { e with colStart := s, colEnd := t
 def isFault (e : Error) : Bool := e.code == Code.fault
 end Error
 
+instance instDecEqExcept {ε α : Type} [DecidableEq ε] [DecidableEq α] : DecidableEq (Except ε α) :=
+  fun a b => match a, b with
+  | .ok x, .ok y => if h : x = y then isTrue (by rw [h]) else isFalse (fun h' => h (by injection h'))
+  | .error x, .error y => if h : x = y then isTrue (by rw [h]) else isFalse (fun h' => h (by injection h'))
+  | .ok _, .error _ => isFalse (fun h => by cases h)
+  | .error _, .ok _ => isFalse (fun h => by cases h)
+
 abbrev Res (α : Type) := Except Error α
 
 def err {α} (code : Nat) : Res α := .error (Error.mk' code)
